@@ -779,7 +779,7 @@ func genCase(t *rapid.T) Case {
 		c.R = genSize(t, "radius")
 		c.Rows = genCount(t, 2, 200, "rows")
 		c.Cols = genCount(t, 3, 200, "columns")
-		switch rapid.IntRange(0, 79).Draw(t, "big") {
+		switch rapid.Uint64().Draw(t, "big") % 60 { // (rapid's small integer ranges favour their minimum: a modulus is uniform)
 		case 0: // a large count along one direction, the product bounded
 			c.Rows = genBigCount(t, 4100, "bigRows")
 			c.Cols = rapid.IntRange(3, 1+100000/c.Rows).Draw(t, "colsForBigRows")
@@ -793,7 +793,7 @@ func genCase(t *rapid.T) Case {
 	case famCylinder:
 		c.R, c.H = genSize(t, "radius"), genSize(t, "height")
 		c.Cols = genCount(t, 3, 500, "sides")
-		if rapid.IntRange(0, 39).Draw(t, "big") == 0 {
+		if rapid.Uint64().Draw(t, "big")%30 == 0 {
 			c.Cols = genBigCount(t, 70000, "bigSides")
 		}
 		c.UV = rapid.IntRange(0, 8).Draw(t, "uv")
